@@ -21,10 +21,12 @@ where
         }
         buf.reserve(to - from);
 
-        let reader = self.base.region().create_reader();
+        // Lock order: page index before mmap (the writer holds the page index while it
+        // writes through the mmap; the other order deadlocks once a file grower queues).
         #[cfg(anydb_verif)]
         rawdb::verif::lock_rw("pages", rawdb::verif::LockMode::Read, &self.pages);
         let pages = self.pages.read();
+        let reader = self.base.region().create_reader();
         ReadWriteCompressedVec::<I, T, S>::read_stored_pages_into(&reader, &pages, from, to, buf);
     }
 
